@@ -350,8 +350,20 @@ class PartRun:
             if case.get('batch'):
                 from simprocesd.model.factory_floor import PartBatcher
                 feed = PartBatcher(name='T', upstream=[src], output_batch_size=case['batch'])
-            self.proc = PartProcessor(name='P', upstream=[feed], cycle_time=case['ct'])
-            Sink(name='K', upstream=[self.proc])
+            if case.get('reentrant'):
+                # the watched machine is shared by two chained paths (examples/ReentrantFlow.py): every part is finished
+                # by it twice, often twice in a row
+                from simprocesd.model.factory_floor import Group
+                self.proc = PartProcessor(name='P', cycle_time=case['ct'])
+                grp = Group('cell', [self.proc])
+                from simprocesd.model.factory_floor import PartHandler
+                v1 = grp.get_new_group_path('visit1', [feed])
+                between = PartHandler(name='M2', upstream=[v1], cycle_time=case.get('between_ct', 0))
+                v2 = grp.get_new_group_path('visit2', [between])
+                Sink(name='K', upstream=[v2])
+            else:
+                self.proc = PartProcessor(name='P', upstream=[feed], cycle_time=case['ct'])
+                Sink(name='K', upstream=[self.proc])
             self.proc.add_finish_processing_callback(self.on_finish)
             self.probes = [AttributeProbe('quality', None), Probe(lambda part: part.id, None),
                            AttributeProbe('value', None)][:case['nprobes']]
@@ -506,7 +518,8 @@ def gen_part(rng, tie):
             'qualities': [rng.choice([1, 0.5, 0.25, 0.75]) for _ in range(rng.randint(1, 4))],
             'failures': sorted(rng.sample([x / 2 for x in range(2, 80)], rng.choice([0, 0, 1, 3]))),
             'horizon': float(rng.choice([20, 40, 60, 60, 300])), 'tie': tie, 'tie_seed': rng.randrange(1 << 30),
-            'batch': rng.choice([None, None, 2, 3, 4]), 'cb_fails': rng.choice([None, None, None, 1, 2, 3, 4])}
+            'batch': rng.choice([None, None, 2, 3, 4]), 'cb_fails': rng.choice([None, None, None, 1, 2, 3, 4]),
+            'reentrant': rng.random() < 0.3, 'between_ct': rng.choice([0, 0, 0.5])}
 
 
 def run_case(sh, case):
